@@ -12,10 +12,11 @@ property itself):
                     `panic_sites_classified`: every potential panic site extracted from the primitives is in the
                     hand-reviewed table (LemmasSites.lean); `reachable_sites_named`: every site judged reachable names
                     its finding class.
-  (c) recovery      `failed_run_leaves_clean_partial`, `handler_run_resumes_clean`, `run_never_panics`,
-                    `failed_forms_keep_completed`, `history_stays_clean`: the model of `SteelThread::execute`;
-                    `FailedRunLeavesClean` (the full statement) is refuted for the model by `not_FailedRunLeavesClean`
-                    (a handler that is not a closure), replayed on the real engine (finding K07a);
+  (c) recovery      `failed_run_leaves_clean` (the full statement `FailedRunLeavesClean`), `handler_run_resumes_clean`,
+                    `run_never_panics`, `failed_forms_keep_completed`, `history_stays_clean`: the model of
+                    `SteelThread::execute`.  Until /repo commit f4f0e66b the full statement was refuted for the model by a
+                    handler that is not a closure (finding K07a, found here, replayed on the engine, repaired); the
+                    witness stays as `regression_bad_handler`.
                     `failed_build_is_noop_partial`, `not_FailedBuildIsNoop` (macros of a failed program stay defined).
 -/
 import SteelVerif.C12.Props
@@ -72,14 +73,23 @@ def FailedRunLeavesClean : Prop :=
     t.clean → execute fuel code t = (o, t') → o.isErr = true →
     t'.stack = [] ∧ t'.frames = [] ∧ t.globals <+: t'.globals
 
-/-- the part that holds: every error other than "the installed exception handler is not a function" -/
-theorem failed_run_leaves_clean_partial (fuel : Nat) (code : List Code) (t t' : Thread) (e : Val)
-    (hc : t.clean) (h : execute fuel code t = (.error e, t')) :
-    t'.stack = [] ∧ t'.frames = [] ∧ t.globals <+: t'.globals := by
+/-- the full statement holds for the code that exists (since /repo commit f4f0e66b) -/
+theorem failed_run_leaves_clean : FailedRunLeavesClean := by
+  intro fuel code t t' o hc h ho
   unfold execute at h
   have r := executeLoop_spec (inv_of_clean_entry t hc) h
-  have c := r.2.2 (Or.inr ⟨e, rfl⟩)
-  exact ⟨c.1, c.2, by simpa using r.2.1⟩
+  cases o with
+  | error e =>
+    have c := r.2.2 (Or.inr ⟨e, rfl⟩)
+    exact ⟨c.1, c.2, by simpa using r.2.1⟩
+  | ok v => cases ho
+  | panic => cases ho
+  | outOfFuel => cases ho
+
+theorem failed_run_leaves_clean_partial (fuel : Nat) (code : List Code) (t t' : Thread) (e : Val)
+    (hc : t.clean) (h : execute fuel code t = (.error e, t')) :
+    t'.stack = [] ∧ t'.frames = [] ∧ t.globals <+: t'.globals :=
+  failed_run_leaves_clean fuel code t t' (.error e) hc h rfl
 
 /-- an evaluation that succeeds — possibly after errors were caught by handlers — ends with both stacks empty -/
 theorem handler_run_resumes_clean (fuel : Nat) (code : List Code) (t t' : Thread) (v : Val)
@@ -97,7 +107,7 @@ theorem run_never_panics (fuel : Nat) (code : List Code) (t t' : Thread) (o : Ou
   unfold execute at h
   exact (executeLoop_spec (inv_of_clean_entry t hc) h).1
 
-/-- the outcomes after which a thread is known to be clean -/
+/-- the outcomes after which a thread is known to be clean (everything but running out of fuel) -/
 def Outcome.benign : Outcome → Bool
   | .ok _ => true
   | .error _ => true
@@ -109,7 +119,6 @@ theorem execute_clean (fuel : Nat) (code : List Code) (t t' : Thread) (o : Outco
   cases o with
   | ok v => have r := handler_run_resumes_clean fuel code t t' v hc h; exact ⟨⟨r.1, r.2.1⟩, r.2.2⟩
   | error e => have r := failed_run_leaves_clean_partial fuel code t t' e hc h; exact ⟨⟨r.1, r.2.1⟩, r.2.2⟩
-  | handlerNotAFunction => cases hb
   | panic => cases hb
   | outOfFuel => cases hb
 
@@ -180,29 +189,23 @@ example : (execute 100 progHandled {}).1 = .error 4 := by decide
 example : (execute 100 progHandled {}).2.globals = [(1, 5)] := by decide
 example : (execute 100 [.handle true [.pop, .push 5] [.push 1, .fail 3], .define 1] {}).1 = .ok 0 := by decide
 
-/-! ### the full statement is false for the code that exists -/
+/-! ### regression: the witness that refuted the full statement before /repo commit f4f0e66b -/
 
-/-- `(list 1 (call-with-exception-handler list (lambda () (error "x"))))`: the handler is a built-in, not a closure -/
+/-- `(list 1 (call-with-exception-handler list (lambda () (error "x"))))`: the handler is a built-in, not a closure.
+It is rejected when it is installed. -/
 def progBadHandler : List Code :=
   [.push 1, .call [.push 2, .push 3, .handle false [] [.push 4, .fail 9]]]
 
-/-- K07a: the unwind loop leaves through `stop!` — one frame and four operands stay behind -/
-theorem counter_bad_handler :
-    (execute 100 progBadHandler {}).1 = .handlerNotAFunction ∧
-    (execute 100 progBadHandler {}).2.frames.length = 1 ∧
-    (execute 100 progBadHandler {}).2.stack = [1, 2, 3, 9] := by decide
+theorem regression_bad_handler :
+    (execute 100 progBadHandler {}).1 = .error handlerTypeError ∧
+    (execute 100 progBadHandler {}).2.frames.length = 0 ∧
+    (execute 100 progBadHandler {}).2.stack = [] := by decide
 
-theorem not_FailedRunLeavesClean : ¬ FailedRunLeavesClean := by
-  intro h
-  have := h 100 progBadHandler {} (execute 100 progBadHandler {}).2 (execute 100 progBadHandler {}).1
-    ⟨rfl, rfl⟩ rfl (by decide)
-  have hs := this.1
-  revert hs
-  decide
-
-/-- the residue accumulates: the next evaluation starts on top of it (`execute` resets nothing on entry) -/
-example : ((execute 100 progBadHandler (execute 100 progBadHandler {}).2).2.frames.length,
-           (execute 100 progBadHandler (execute 100 progBadHandler {}).2).2.stack.length) = (2, 8) := by decide
+/-- a frame that carries a non-closure handler all the same (installed by other means) is skipped by the unwind loop,
+which then runs to its end: nothing stays behind -/
+example : (unwind 9 { stack := [1, 2, 3, 4], popCount := 3 }
+    [{ sp := 3, handler := some (false, []), mark := false, ret := [] }, { sp := 1, handler := none, mark := false, ret := [] }]) =
+    .fail handlerTypeError { stack := [], frames := [], popCount := 1 } := rfl
 
 /-! ## the build -/
 
